@@ -8,7 +8,8 @@ From PV Require Import Base SetOp lemmas.SetOpLemmas.
    answers with its base's list) and, when the base asks for wrapping, answers subquery=True with its own text in
    parentheses.  Then rendering raises SetOperationException exactly when some operand's arity differs from the
    base's (whatever with_alias/subquery flags the caller passes), and otherwise yields exactly the specified text:
-   operands in call order, each operand's own text unchanged and parenthesised iff the base's flag asks, the
+   operands in call order, each operand's own text unchanged and parenthesised iff the base's flag asks (where it
+   does not ask, a nested chain keeps its grouping as the derived table SELECT * FROM (own text)), the
    operators' keywords between them in order, ORDER BY / LIMIT / OFFSET once, after the last operand, outside every
    operand's parentheses.  (The engine clause of C11 is validated on SQLite by the harness, not stated here.) *)
 Definition C11_full_statement : Prop :=
@@ -26,8 +27,13 @@ Qed.
 Print Assumptions C11_holds.
 
 Definition kw0 := no_kwargs.
+(* QueryBuilder._set_kwargs_defaults of the generic Query class *)
+Definition generic_defaults : kwargs :=
+  [("quote_char", VStr """"); ("secondary_quote_char", VStr "'"); ("alias_quote_char", VNone);
+   ("query_alias_quote_char", VNone); ("as_keyword", VBool false); ("dialect", VNone)].
 Definition q_of (sel : list (option string)) (plain : string) : operand :=
-  {| o_sel := sel; o_builder := true; o_wrap := true; o_dialect := None; o_quote := Some """";
+  {| o_sel := sel; o_builder := true; o_chain := false; o_wrap := true;
+     o_defaults := generic_defaults; o_forced := []; o_page := PStd;
      o_text := fun _ sub => if sub then "(" ++ plain ++ ")" else plain |}.
 Definition q1 := q_of [None] "SELECT ""a"" FROM ""t""".
 Definition q2 := q_of [None] "SELECT ""a"" FROM ""u""".
@@ -47,11 +53,11 @@ Print Assumptions C11_chain_is_an_operand.
 (* ---------- the two hypotheses of [frag] are needed: objects that are not queries ----------
    a Table (no _selects: TypeError) and a builder with nothing to render (empty text, never parenthesised) *)
 Definition table_u : operand :=
-  {| o_sel := []; o_builder := false; o_wrap := false; o_dialect := None; o_quote := None;
-     o_text := fun _ _ => """u""" |}.
+  {| o_sel := []; o_builder := false; o_chain := false; o_wrap := false; o_defaults := []; o_forced := [];
+     o_page := PStd; o_text := fun _ _ => """u""" |}.
 Definition empty_q : operand :=
-  {| o_sel := []; o_builder := true; o_wrap := true; o_dialect := None; o_quote := Some """";
-     o_text := fun _ _ => "" |}.
+  {| o_sel := []; o_builder := true; o_chain := false; o_wrap := true; o_defaults := generic_defaults;
+     o_forced := []; o_page := PStd; o_text := fun _ _ => "" |}.
 Theorem C11_domain_hypotheses_needed :
   render_setop (qb_union q1 table_u) kw0 false false = RTypeError
   /\ has_mismatch (qb_union empty_q empty_q) = false
@@ -73,7 +79,7 @@ Theorem C11_first_mismatch : forall s k wa sub pre ty q post,
   all_builders s = true -> s_ops s = (pre ++ (ty, q) :: post)%list ->
   existsb (fun x => mismatch_b (s_base s) (snd x)) pre = false -> mismatch_b (s_base s) q = true ->
   render_setop s k wa sub =
-  RSetOpExc (o_text (s_base s) (eff_kwargs s k) (o_wrap (s_base s))) (o_text q (eff_kwargs s k) (o_wrap (s_base s))).
+  RSetOpExc (o_text (s_base s) (eff_kwargs s k) (o_wrap (s_base s))) (operand_sql (s_base s) (eff_kwargs s k) q).
 Proof. exact render_first_mismatch. Qed.
 Print Assumptions C11_first_mismatch.
 
@@ -95,8 +101,8 @@ Theorem C11_as_subquery : forall s k,
       /\ (forall sub, render_setop s k true sub =
             ROk (fmt_alias (if sub then "(" ++ t ++ ")" else t)
                            (Some (if truthy_ostr (s_alias s) then ostr (s_alias s) else table_name_field_text))
-                           (match kw_quote (eff_kwargs s k) with Some x => x | None => None end)
-                           (kw_alias_quote k) (kw_as_keyword k)))
+                           (kw_str (eff_kwargs s k) "quote_char") (source_alias_quote (eff_kwargs s k))
+                           (kw_true (eff_kwargs s k) "as_keyword")))
   | e => forall wa sub, render_setop s k wa sub = e
   end.
 Proof. exact render_subquery. Qed.
@@ -159,3 +165,31 @@ Example C11_example_nested :
      = RSetOpExc "(SELECT ""a"" FROM ""t"")" "(SELECT ""a"",""b"" FROM ""w"")".
 Proof. vm_compute. repeat split. Qed.
 Print Assumptions C11_example_nested.
+
+(* a base that does not parenthesise (ClickHouse, SQLite): the nested chain is a derived table, plain operands bare;
+   a - (b - c) keeps its grouping *)
+Definition bare_of (sel : list (option string)) (plain : string) (st : pstyle) : operand :=
+  {| o_sel := sel; o_builder := true; o_chain := false; o_wrap := false;
+     o_defaults := generic_defaults; o_forced := []; o_page := st;
+     o_text := fun _ sub => if sub then "(" ++ plain ++ ")" else plain |}.
+Definition b1 := bare_of [None] "SELECT ""a"" FROM ""t""" PStd.
+Definition b2 := bare_of [None] "SELECT ""a"" FROM ""u""" PStd.
+Definition b3 := bare_of [None] "SELECT ""a"" FROM ""v""" PStd.
+Example C11_example_derived_table :
+  let s := qb_except_of b1 (as_operand (qb_except_of b2 b3)) in
+  frag s kw0 = true /\ has_mismatch s = false
+  /\ render_setop s kw0 false false =
+     ROk "SELECT ""a"" FROM ""t"" EXCEPT SELECT * FROM (SELECT ""a"" FROM ""u"" EXCEPT SELECT ""a"" FROM ""v"")".
+Proof. vm_compute. repeat split. Qed.
+Print Assumptions C11_example_derived_table.
+
+(* the chain's limit/offset in the base dialect's syntax, still once and after the last operand *)
+Example C11_example_pagination :
+  let o := bare_of [None] "SELECT a FROM t" POracle in
+  let m := bare_of [None] "SELECT ""a"" FROM ""t""" PMssql in
+  render_setop (so_offset (so_limit (qb_union o o) (Some 3%Z)) (Some 2%Z)) kw0 false false
+    = ROk "SELECT a FROM t UNION SELECT a FROM t OFFSET 2 ROWS FETCH NEXT 3 ROWS ONLY"
+  /\ render_setop (so_limit (qb_union m m) (Some 0%Z)) kw0 false false
+    = ROk "SELECT ""a"" FROM ""t"" UNION SELECT ""a"" FROM ""t"" OFFSET 0 ROWS FETCH NEXT 0 ROWS ONLY".
+Proof. vm_compute. repeat split. Qed.
+Print Assumptions C11_example_pagination.
